@@ -182,6 +182,17 @@ func (m *BinaryModel) ResolveDependencies() {
 					}
 				}
 			}
+			if mf, ok := field.Attr.(*MatchFieldAttribute); ok {
+				for _, pair := range mf.MatchPairs {
+					if _, exists := m.PacketsMap[pair.Value]; !exists {
+						m.AddSyntaxError(&SyntaxError{
+							Line:   pair.Line,
+							Column: pair.Column,
+							Msg:    "Unknown packet type " + pair.Value + " for match key " + pair.Key + " of " + field.Name,
+						})
+					}
+				}
+			}
 		}
 	}
 }
